@@ -77,7 +77,7 @@ def check(run, driver):
     reqs, meta = [], []
     for it in range(60 if thorough else 20):
         d = int(rng.integers(1, 5)); k = int(rng.integers(1, 6)); N = int(rng.integers(k + 2, 16))
-        X = np.round(rng.standard_normal((N, d)) * 2**12) / 2**12
+        X = rng.standard_normal((N, d))      # (un-quantised: a quantised grid creates exact distance ties, outside the tie-free quantifier)
         rec = {"l2": [], "svd": [], "hyp": []}
         real_l2, real_svd, real_hyp = E.l2dist, np.linalg.svd, E.hyperellipsoid_check
 
